@@ -66,11 +66,12 @@ func (w *vWorld) restart() (*Log, *vInstance) {
 // VerifC01 explores every placement of up to `faults` storage/lock failures (applied or not) and up to
 // `crashes` crashes over `rounds` rounds from a pre-state of n0 leaves, under an arbitrary clock, and
 // checks the append-only monitors at every lock commit and publication, then audits the histories.
-func VerifC01(n0, rounds, pool, faults, crashes int) {
+func VerifC01(n0, rounds, pool, faults, crashes, clock int) {
 	w := newWorld(faults, crashes)
+	w.skipStorageCheck = true // storage completeness at every publication is C04's monitor
 	l, inst := w.bootstrap(n0)
 	w.armed = true
-	w.clockMode = 0
+	w.clockMode = clock // 0: every reading arbitrary (stalled, backwards, jumps); 1: strictly increasing
 	l = w.runRounds(l, inst, rounds, pool)
 	// final recovery with a benign environment so that the audit can read the whole tree
 	w.armed = false
